@@ -214,7 +214,164 @@ def attr_chain(node):
     return None, None
 
 
+def _stores(fn, name):
+    return [n for n in ast.walk(fn) if isinstance(n, ast.Name) and n.id == name and isinstance(n.ctx, (ast.Store, ast.Del))]
+
+
+def _list_untouched(fn, name):
+    """`name` (a list bound by a for target) is only read: no item stores/deletes, no mutating method calls"""
+    for n in ast.walk(fn):
+        if isinstance(n, ast.Subscript) and isinstance(n.value, ast.Name) and n.value.id == name \
+                and isinstance(n.ctx, (ast.Store, ast.Del)):
+            return False
+        if isinstance(n, ast.Call) and isinstance(n.func, ast.Attribute) and isinstance(n.func.value, ast.Name) \
+                and n.func.value.id == name and n.func.attr in ("append", "extend", "insert", "pop", "remove", "sort",
+                                                               "reverse", "clear", "__setitem__", "__delitem__"):
+            return False
+        if isinstance(n, ast.AugAssign) and isinstance(n.target, ast.Name) and n.target.id == name:
+            return False
+    return True
+
+
+def _is_sub0(e):
+    return (isinstance(e, ast.Subscript) and isinstance(e.value, ast.Name) and isinstance(e.slice, ast.Constant)
+            and e.slice.value == 0 and type(e.slice.value) is int)
+
+
+def resolve_first_aliases(fn):
+    """`first = cells[0]` as a direct statement of the `for ..., cells in ...` body, `first` assigned nowhere
+    else, every use of `first` later in that same body, `cells` bound only by that for target and never
+    modified  ==>  `first` IS `cells[0]` at each use: replace it.  Any other alias of a subscript is left alone
+    (and then fails the shape checks as before)."""
+    import copy
+
+    fn = copy.deepcopy(fn)
+    for loop in [n for n in ast.walk(fn) if isinstance(n, ast.For)]:
+        bound = {t.id for t in ast.walk(loop.target) if isinstance(t, ast.Name)}
+        for idx, st in enumerate(list(loop.body)):
+            if not (isinstance(st, ast.Assign) and len(st.targets) == 1 and isinstance(st.targets[0], ast.Name)
+                    and _is_sub0(st.value) and st.value.value.id in bound):
+                continue
+            alias, lst = st.targets[0].id, st.value.value.id
+            if len(_stores(fn, alias)) != 1 or len(_stores(fn, lst)) != 1 or not _list_untouched(fn, lst):
+                continue
+            later = set()
+            for x in loop.body[idx + 1:]:
+                later |= {id(n) for n in ast.walk(x)}
+            uses = [n for n in ast.walk(fn) if isinstance(n, ast.Name) and n.id == alias and isinstance(n.ctx, ast.Load)]
+            if not uses or any(id(n) not in later for n in uses):
+                continue
+
+            class R(ast.NodeTransformer):
+                def visit_Name(self, n):
+                    if n.id == alias and isinstance(n.ctx, ast.Load):
+                        return ast.copy_location(copy.deepcopy(st.value), n)
+                    return n
+            loop.body = loop.body[:idx] + [R().visit(x) for x in loop.body[idx + 1:]]
+    return fn
+
+
+def _int_of(e):
+    return int_const(e)
+
+
+def _len_of(e, lst):
+    return (isinstance(e, ast.Call) and isinstance(e.func, ast.Name) and e.func.id == "len" and len(e.args) == 1
+            and not e.keywords and isinstance(e.args[0], ast.Name) and e.args[0].id == lst)
+
+
+def _index_expr(e, i):
+    """e is  i + c  /  i - c  /  i   ->  c"""
+    if isinstance(e, ast.Name) and e.id == i:
+        return 0
+    if isinstance(e, ast.BinOp) and isinstance(e.left, ast.Name) and e.left.id == i and isinstance(e.op, (ast.Add, ast.Sub)):
+        c = _int_of(e.right)
+        if c is not None:
+            return c if isinstance(e.op, ast.Add) else -c
+    return None
+
+
+def pairwise_loop(fn, call):
+    """The for loop around `call` walks consecutive pairs (P, N) = (cells[k], cells[k+1]), k = 0 .. len-2, in order:
+         for P, N in zip(cells[:-1], cells[1:])                     (also zip(cells, cells[1:]))
+         for i in range(1, len(cells)):      P = cells[i-1]; N = cells[i]      (single or tuple assignment)
+         for i in range(len(cells) - 1):     P = cells[i];   N = cells[i+1]
+       -> (P, N, cells)"""
+    loops = [n for n in ast.walk(fn) if isinstance(n, ast.For) and any(x is call for b in n.body for x in ast.walk(b))]
+    if not loops:
+        fail("to_incremental: the later increments are not built inside a loop", call)
+    loop = max(loops, key=lambda n: n.lineno)          # innermost
+    if loop.orelse:
+        fail("to_incremental: pair loop has an else clause", loop)
+    it, tg = loop.iter, loop.target
+    if isinstance(it, ast.Call) and isinstance(it.func, ast.Name) and it.func.id == "zip" and len(it.args) == 2 and not it.keywords:
+        a, b = it.args
+
+        def sl(e):
+            if isinstance(e, ast.Name):
+                return e.id, (None, None)
+            if isinstance(e, ast.Subscript) and isinstance(e.value, ast.Name) and isinstance(e.slice, ast.Slice) and e.slice.step is None:
+                lo = None if e.slice.lower is None else _int_of(e.slice.lower)
+                hi = None if e.slice.upper is None else _int_of(e.slice.upper)
+                if (e.slice.lower is None or lo is not None) and (e.slice.upper is None or hi is not None):
+                    return e.value.id, (lo, hi)
+            return None, None
+        (la, ra), (lb, rb) = sl(a), sl(b)
+        ok = (la is not None and la == lb and ra in ((None, -1), (None, None), (0, -1), (0, None)) and rb == (1, None)
+              and isinstance(tg, ast.Tuple) and len(tg.elts) == 2 and all(isinstance(x, ast.Name) for x in tg.elts))
+        if not ok:
+            fail("to_incremental: pair loop is not zip(cells[:-1], cells[1:])", loop)
+        return tg.elts[0].id, tg.elts[1].id, la
+    if isinstance(it, ast.Call) and isinstance(it.func, ast.Name) and it.func.id == "range" and not it.keywords \
+            and isinstance(tg, ast.Name):
+        i = tg.id
+        binds = {}
+        for st in loop.body:
+            if not isinstance(st, ast.Assign) or len(st.targets) != 1:
+                break
+            t, v = st.targets[0], st.value
+            pairs = list(zip(t.elts, v.elts)) if (isinstance(t, ast.Tuple) and isinstance(v, ast.Tuple)
+                                                  and len(t.elts) == len(v.elts)) else [(t, v)]
+            for tt, vv in pairs:
+                if not (isinstance(tt, ast.Name) and isinstance(vv, ast.Subscript) and isinstance(vv.value, ast.Name)):
+                    fail("to_incremental: unsupported assignment at the head of the pair loop", st)
+                c = _index_expr(vv.slice, i)
+                if c is None:
+                    fail("to_incremental: unsupported index at the head of the pair loop", st)
+                binds[tt.id] = (vv.value.id, c)
+        if len(binds) != 2 or len({l for l, _ in binds.values()}) != 1:
+            fail("to_incremental: index loop does not bind exactly two cells of one list", loop)
+        lst = next(iter(binds.values()))[0]
+        (p_, cp), (n_, cn) = sorted(binds.items(), key=lambda kv: kv[1][1])
+        cp, cn = cp[1], cn[1]
+        if cn != cp + 1:
+            fail("to_incremental: index loop does not pair consecutive cells", loop)
+        args = it.args
+        # i runs over  -cp .. len-1-cn  (so that cells[i+cp] = cells[0] .. and cells[i+cn] = cells[len-1])
+        lo = 0 if len(args) == 1 else _int_of(args[0])
+        hi = args[-1] if len(args) <= 2 else None
+        if len(args) > 2 or lo is None or lo != -cp:
+            fail("to_incremental: index loop does not start at the first pair", loop)
+        want_off = -cn                         # stop = len(cells) + want_off
+        if want_off == 0:
+            ok = _len_of(hi, lst)
+        else:
+            ok = (isinstance(hi, ast.BinOp) and _len_of(hi.left, lst) and isinstance(hi.op, (ast.Add, ast.Sub))
+                  and _int_of(hi.right) is not None
+                  and (_int_of(hi.right) if isinstance(hi.op, ast.Add) else -_int_of(hi.right)) == want_off)
+        if not ok:
+            fail("to_incremental: index loop does not stop at the last pair", loop)
+        for nm in (p_, n_, i):
+            if len(_stores(fn, nm)) != 1:
+                fail(f"to_incremental: {nm} is assigned more than once", loop)
+        if not _list_untouched(fn, lst):
+            fail("to_incremental: the row list is modified", loop)
+        return p_, n_, lst
+    fail("to_incremental: unsupported pair loop", loop)
+
+
 def off_first(fn):
+    fn = resolve_first_aliases(fn)
     calls = [n for n in ast.walk(fn) if isinstance(n, ast.Call) and isinstance(n.func, ast.Name)
              and n.func.id == "IncrementalCell"]
     calls.sort(key=lambda n: (n.lineno, n.col_offset))
@@ -234,10 +391,21 @@ def off_first(fn):
     if a[1] != "evaluation_date" or b[1] != "evaluation_date" or a[0] == b[0]:
         fail("to_incremental: the later increments do not link prev_cell.evaluation_date -> next_cell.evaluation_date",
              calls[1])
+    P, N, lst = pairwise_loop(fn, calls[1])
+    if (a[0], b[0]) != (P, N):
+        fail(f"to_incremental: the later increments do not link {P}.evaluation_date -> {N}.evaluation_date of "
+             "consecutive cells", calls[1])
+    vd = kw2.get("values")
+    if not (isinstance(vd, ast.Call) and isinstance(vd.func, ast.Name) and vd.func.id == "_values_diff" and len(vd.args) == 2
+            and not vd.keywords and attr_chain(vd.args[0]) == (P, "values") and attr_chain(vd.args[1]) == (N, "values")):
+        fail(f"to_incremental: values of the later increments are not _values_diff({P}.values, {N}.values)", calls[1])
+    if attr_chain(ev)[0] != lst + "[0]":
+        fail("to_incremental: the first increment and the pair loop use different row lists", calls[0])
     return r[1]
 
 
 def off_check(fn):
+    fn = resolve_first_aliases(fn)
     ifs = [n for n in ast.walk(fn) if isinstance(n, ast.If) and raises_triangle_error(n.body)]
     ifs.sort(key=lambda n: n.lineno)
     if len(ifs) != 2:
